@@ -118,14 +118,16 @@ BUILT = {
             'and next to the signed/unsigned range; numeric_bytecode min/max grids; every numeric-enumeration key set within 0..4; '
             'address / valid_address operands against zone grids (redefined GLOBAL, named zone); sliced addresses on both sides '
             'of page boundaries; relative offsets min-1..max+1 for (min,max) x offset_from_instruction_end x instruction size x '
-            'address. ACCEPT iff all constraints hold (then bytes = reference) else REJECT.',
+            'address; the same relative boundaries when the instruction is a step of a macro. ACCEPT iff all constraints hold (then '
+            'bytes = reference) else REJECT.',
             'Reference mc/refenc.py; relative targets kept inside GLOBAL.',
             'DESIGN.md 3/C12'),
     'C13': ('exploration',
             'exhaustive enumeration of deliberately ambiguous generated definitions x operand texts against a category-level matcher',
-            'Every ordered pair of one-slot variants whose operand set is any subset (size <=2, thorough 3) of 11 alternative kinds x 16 '
+            'Every ordered pair of one-slot variants whose operand set is any subset (size <=2, thorough 3) of 13 alternative kinds x 18 '
             'operand texts x mnemonic case, two-slot variants over a reduced subset list with and without an explicitly listed '
-            'combination and a disallowed pair x pairs of 8 texts, and three-variant definitions; every variant has its own opcode '
+            'combination and a disallowed pair x pairs of 8 texts, variants using one operand set in both slots with an asymmetric '
+            'disallowed pair, explicit combinations with an empty operand, and three-variant definitions; every variant has its own opcode '
             'and every alternative its own code so the image names the choice; expected = first accepting variant by the stated '
             'priority, or rejection.',
             'Reference matcher in mc/props/c13.py over text categories known by construction. Sets with two numeric-like alternatives '
@@ -151,7 +153,7 @@ BUILT = {
             'DESIGN.md 3/C19'),
     'C16': ('model_checking',
             'explicit-state exploration of program histories; six real executions per program, independent format decoders',
-            'For every accepted program history of depth <=3 (thorough 4) over a 12-symbol alphabet under address widths 8/12/16/24, '
+            'For every accepted program history of depth <=3 (thorough 4) over a 12-symbol alphabet under address widths 8/12/16/24/32, '
             'the exact address->byte map is recovered from two images (fill 00/ff) and the Intel HEX records, the hex dump, the '
             'compact hex format and the listing columns, each decoded by an independent decoder, must give the same map; listing '
             'rows are compared with the reference lines (each statement once, its address, its bytes, nothing for muted lines).',
@@ -181,7 +183,7 @@ BUILT = {
             'through an AST rewrite that makes each iteration of a set of hash-randomised elements a choice point; for 8 programs x 2 '
             'formats the default schedule (replayed twice) and every schedule with one (thorough two) deviating choice point must give '
             'identical status, image and pretty print. End to end, the same programs x formats run through the real CLI for every '
-            'combination of hash seed, working directory, include-directory order and environment.',
+            'combination of hash seed, working directory, include-directory order, include-directory spelling and environment.',
             'Sets are assumed to be created by set(...)/displays/comprehensions inside bespokeasm; int-only sets are not permuted; dict '
             'order is insertion order. Schedule violations are confirmed by replaying the schedule in a fresh process.',
             'DESIGN.md 3/C15'),
